@@ -13,8 +13,20 @@ import (
 	"time"
 )
 
-const repoRoot = "/repo"
+// repoRoot is /repo for every registered check. GOVC_REPO / GOVC_OUT exist only so that seeded changes can be
+// evaluated in parallel on scratch worktrees without touching /repo or the committed evidence (tools/eval_seed.sh).
+var repoRoot = envOr("GOVC_REPO", "/repo")
+
 const verifRoot = "/verif"
+
+var outRoot = envOr("GOVC_OUT", verifRoot)
+
+func envOr(k, d string) string {
+	if v := os.Getenv(k); v != "" {
+		return v
+	}
+	return d
+}
 
 func pkgPathOfDir(dir string) string {
 	rel, err := filepath.Rel(repoRoot, dir)
@@ -266,7 +278,7 @@ func cmdImpls(names []string) int {
 		fmt.Println(err)
 		return 2
 	}
-	eng, err := loadEngine("/repo/client", []string{"./..."}, overlay, db)
+	eng, err := loadEngine(filepath.Join(repoRoot, "client"), []string{"./..."}, overlay, db)
 	if err != nil {
 		fmt.Println(err)
 		return 2
